@@ -19,6 +19,7 @@ import warnings
 
 from harness import core, rng as hrng
 
+TREE_SEED = 0   # an explicit seed, and a falsy one: `seed=0` must seed the tree learners just like any other integer
 CONFIGS = []
 for kind in ("pfi", "sage", "batch", "interval"):
     for storage in ("geom", "uniform", "default", "tree"):
@@ -67,7 +68,7 @@ def build(kind, storage, imputer):
         st = UniformReservoirStorage(size=5, store_targets=False)
     elif storage == "tree":
         st = TreeStorage(cat_feature_names=["b"], num_feature_names=["a", "c"], max_depth=3, leaf_reservoir_length=3,
-                         grace_period=5, seed=42)
+                         grace_period=5, seed=TREE_SEED)
     imp = None
     if imputer in ("joint", "product") and st is not None:
         imp = MarginalImputer(model, imputer, st)
